@@ -97,7 +97,6 @@ Inductive subtlv :=
 | SIPv4 (ty len addr : N)                 (* IPv4AddressSubTLV *)
 | SRaw (ty len : N) (v : list N).         (* any other TLV, by the bytes its Serialize writes after type/len *)
 
-Record isnbr := mkIsNbr { in_m1 : N; in_m2 : N; in_m3 : N; in_m4 : N; in_id : list N }.
 Record extisnbr := mkExtIsNbr { xn_id : list N; xn_metric : N; xn_sublen : N; xn_subs : list subtlv }.
 Record extipreach := mkExtIp { xp_metric : N; xp_udpfx : N; xp_addr : N; xp_subs : list subtlv }.
 
@@ -111,9 +110,9 @@ Inductive tlv :=
 | TISNbr (ty len : N) (snpa : list N)                             (* ISNeighborsTLV, 6 *)
 | TEntries (ty len : N) (es : list lspentry)                      (* LSPEntriesTLV, 9 *)
 | TUnknown (ty len : N) (v : list N)                              (* UnknownTLV *)
-(* the remaining TLV structs can be serialized but readTLV has no case for them *)
+(* the remaining TLV structs can be serialized but readTLV has no case for them
+   (ISReachabilityTLV has a Serialize method but no Copy method: it is not a packet.TLV and cannot be part of a PDU) *)
 | TPadding (ty len : N) (d : list N)                              (* PaddingTLV, 8 *)
-| TISReach (ty len vf : N) (ns : list isnbr)                      (* ISReachabilityTLV, 2 *)
 | TExtIS (ty len : N) (ns : list extisnbr)                        (* ExtendedISReachabilityTLV, 22 *)
 | TExtIP (ty len : N) (rs : list extipreach)                      (* ExtendedIPReachabilityTLV, 135 *)
 | TTERid (ty len addr : N).                                       (* TrafficEngineeringRouterIDTLV, 134 *)
@@ -122,14 +121,14 @@ Definition tlv_type (t : tlv) : N :=
   match t with
   | TArea ty _ _ | TChecksum ty _ _ | TDynHost ty _ _ | TProto ty _ _ | TIPIf ty _ _
   | TP2PAdj ty _ _ _ _ _ | TISNbr ty _ _ | TEntries ty _ _ | TUnknown ty _ _ | TPadding ty _ _
-  | TISReach ty _ _ _ | TExtIS ty _ _ | TExtIP ty _ _ | TTERid ty _ _ => ty
+  | TExtIS ty _ _ | TExtIP ty _ _ | TTERid ty _ _ => ty
   end.
 
 Definition tlv_len (t : tlv) : N :=
   match t with
   | TArea _ l _ | TChecksum _ l _ | TDynHost _ l _ | TProto _ l _ | TIPIf _ l _
   | TP2PAdj _ l _ _ _ _ | TISNbr _ l _ | TEntries _ l _ | TUnknown _ l _ | TPadding _ l _
-  | TISReach _ l _ _ | TExtIS _ l _ | TExtIP _ l _ | TTERid _ l _ => l
+  | TExtIS _ l _ | TExtIP _ l _ | TTERid _ l _ => l
   end.
 
 Record header := mkHeader {
@@ -381,9 +380,6 @@ Definition enc_sub (s : subtlv) : list N :=
   | SRaw ty len v => ty :: len :: v
   end.
 
-Definition enc_isnbr (n : isnbr) : list N :=
-  in_m1 n :: in_m2 n :: in_m3 n :: in_m4 n :: in_id n.
-
 (* NeighborID, convert.Uint32Byte(Metric)[1:], SubTLVLength, sub TLVs *)
 Definition enc_extisnbr (n : extisnbr) : list N :=
   xn_id n ++ tl (be32 (xn_metric n)) ++ xn_sublen n :: concat (map enc_sub (xn_subs n)).
@@ -416,7 +412,6 @@ Definition tlv_value (t : tlv) : list N :=
   | TEntries _ _ es => concat (map enc_entry es)
   | TUnknown _ _ v => v
   | TPadding _ _ d => d
-  | TISReach _ _ _ ns => 0 :: concat (map enc_isnbr ns)
   | TExtIS _ _ ns => concat (map enc_extisnbr ns)
   | TExtIP _ _ rs => concat (map enc_extip rs)
   | TTERid _ _ a => be32 a
